@@ -55,3 +55,19 @@ Theorem C01_operators_covered :
       /\ List.length tbl_ASSIGNMENT_OPS = List.length c99_assignment_ops).
 Proof. exact (conj precedence_is_c99 assignment_ops_are_c99). Qed.
 Print Assumptions C01_operators_covered.
+
+(* ---- acceptance of an unbounded family of valid programs, on the whole-parser model (proofs/StmtTrip.v) ----
+   Every statement of the language [StmtTrip.st] - expression statements over [RoundTripX.ex] (all C operators, calls,
+   subscripts, member accesses, casts and sizeof with simple type names), jumps, labels, if / else, while, do, for,
+   nested blocks: all of it valid C99 - written as the token sequence [stoks rp x] is ACCEPTED by p_statement, for every
+   parser state that sees these tokens next and any following token (other than an `else` after an open if). *)
+From PV Require ParserBase ParserMain StreamLib RoundTrip RoundTripX StmtTrip.
+Theorem C01_generated_statements_accepted : forall (P: Type) rp (x: StmtTrip.st), StmtTrip.swf x ->
+  forall (s: ParserBase.pstate P) le stop l0, RoundTrip.Spell P le (StmtTrip.stoks rp x) -> StreamLib.Up P s (le ++ stop :: l0) ->
+  (StmtTrip.sopen x = true -> kind_eqb (ParserBase.tk stop) K_ELSE = false) ->
+  exists f0 N s', forall f, (f0 <= f)%nat -> ParserMain.p_statement P f s = ParserBase.Ok (N, s').
+Proof.
+  intros P rp x Hw s le stop l0 HS HU Hop.
+  destruct (StmtTrip.parse_of_generated_block_item P rp x Hw s le stop l0 HS HU Hop) as [f0 [N [s' [H _]]]]. exists f0, N, s'. exact H.
+Qed.
+Print Assumptions C01_generated_statements_accepted.
